@@ -213,7 +213,7 @@ def r3_supermajority(chk):
         want = Tx().expr(ast.parse(f"(1 if self.votes[contest_id][{c}] else 0) if ({c} in self.votes[contest_id]) else 0", mode="eval").body)
         same, n, cex = symx.equivalent(symx.prune(ev), symx.prune(want))
         summed = isinstance(parent(cs[0]), ast.Call) and norm(parent(cs[0]).func) in ("np.sum", "sum", "numpy.sum")
-        rets = [r for r in walk_local(hov) if isinstance(r, ast.Return)]
+        rets = [r for r in hov.body if isinstance(r, ast.Return)]  # the final, unconditional return
         vname = None
         for s in hov.body:
             if isinstance(s, ast.Assign) and cs[0] in list(ast.walk(s.value)):
@@ -228,6 +228,19 @@ def r3_supermajority(chk):
             same_r = False
         detail = dict(elt=norm(elt), iter=norm(it), ret=norm(rets[0].value) if rets else None)
         ok = same and summed and norm(it) == "candidates" and not ifs and same_r
+    # totality on ballots lacking the contest (the property quantifies over them): no unguarded self.votes[contest_id]
+    idxs = [n for n in ast.walk(hov) if isinstance(n, ast.Subscript) and norm(n.value) == "self.votes" and norm(n.slice) == "contest_id"]
+    guard = None
+    for st in hov.body:
+        if isinstance(st, ast.If) and len(st.body) == 1 and isinstance(st.body[0], ast.Return) and not st.orelse:
+            c = Tx().cond(st.test)
+            if aud.cond_equiv(c, spec.cond_term("contest_id not in self.votes"))[0] and norm(st.body[0].value) in ("False", "0"):
+                guard = st
+    total = not idxs or (guard is not None and all(n.lineno > guard.lineno for n in idxs))
+    chk.ob("C02.R3", W("CVR.has_one_vote"), "total-on-ballots-lacking-the-contest", total,
+           "a ballot that does not list the contest has no valid vote in it: has_one_vote returns False before indexing the contest "
+           "(so the super-majority assorter is 1/2 there, like every other assorter, instead of raising KeyError)", node=guard or hov,
+           unguarded_index_expressions=len(idxs) if not total else 0)
     chk.ob("C02.R3", W("CVR.has_one_vote"), "exactly-one-mark", ok,
            "has_one_vote == (number of listed candidates with a truthy mark, absent candidates counting 0) == 1", node=hov, **detail)
 
